@@ -61,6 +61,16 @@ def sites(body, fb):
 
 
 def _short(s, n=70):
+    """operand provenance as it appears in a site key; long expressions are cut, with a digest of the whole
+    expression so that two different long expressions never share a key"""
+    s = s.replace("hyeong::", "")
+    if len(s) <= n:
+        return s
+    import hashlib
+    return s[: n - 3] + "...#" + hashlib.sha1(s.encode()).hexdigest()[:6]
+
+
+def _old_short(s, n=70):
     s = s.replace("hyeong::", "")
     return s if len(s) <= n else s[: n - 3] + "..."
 
@@ -109,8 +119,70 @@ def auto_justify(site):
             return "division by a non-zero constant"
         if c and any(v != 0 for v in consts) and not any(isinstance(x, tuple) and x[0] in ("arg", "call", "field") for x in walk(c)):
             return "division by a non-zero constant"
+    if k == "assert:Overflow(Sub)" and len(ops) == 2:
+        why = _max_dominated(ops[0], ops[1])
+        if why:
+            return why
     if k == "assert:BoundsCheck" and len(ops) == 2:
         ln, ix = _consts_of(ops[0]), _consts_of(ops[1])
         if ln is not None and ix is not None and all(0 <= i < min(ln) for i in ix):
             return "constant index below the constant length"
     return None
+
+
+def _top_split(x, sep):
+    """split a fully parenthesised binary expression `(a SEP b)` at its top-level separator; None if it is not one"""
+    if not (x.startswith("(") and x.endswith(")")):
+        return None
+    depth = 0
+    body = x[1:-1]
+    i = 0
+    while i < len(body):
+        c = body[i]
+        if c in "([{<":
+            depth += 1
+        elif c in ")]}>":
+            depth -= 1
+        elif depth == 0 and body.startswith(sep, i):
+            return body[:i], body[i + len(sep):]
+        i += 1
+    return None
+
+
+def _addends(x):
+    sp = _top_split(x, " Add ")
+    if sp is None:
+        return [x]
+    return _addends(sp[0]) + _addends(sp[1])
+
+
+_MAXFORM = re.compile(r"PHI\(K0\|cmp::max\(PHI\(K0\|LOOPVAR\),(.*)\)\)$")
+
+
+def _max_dominated(a, b):
+    """`W - x` (or `(W - x1) - x2`) where W is the running maximum, started at 0, of an expression over the
+    elements of a collection and the subtrahends together are that same expression over an element of the same
+    (immutable) collection: W >= the expression for every element, so the difference cannot underflow"""
+    subtr = [b]
+    cur = a
+    while True:
+        sp = _top_split(cur, " Sub ")
+        if sp is None:
+            break
+        cur, x = sp
+        subtr.append(x)
+    m = _MAXFORM.match(cur)
+    if not m:
+        return None
+    want = sorted(_addends(m.group(1)))
+    got = sorted(y for x in subtr for y in _addends(x))
+    # every subtrahend is one of the addends of the maximised expression, each used at most once
+    rest = list(want)
+    for g in got:
+        if g in rest:
+            rest.remove(g)
+        else:
+            return None
+    if "ELEM<" not in m.group(1):
+        return None
+    return "difference between a running maximum (from 0) of an expression over the elements of a collection and (part of) the same expression for one element: cannot underflow"
